@@ -39,6 +39,7 @@ def outcomes():
         ("return-without-code", lambda m: (default_code(m), b"body")),
         ("return-NoResponse-sentinel", lambda m: ("suppressed", None)),
         ("return-with-no_response-option", lambda m: ("suppressed", None)),
+        ("return-unserialisable-message", lambda m: (160, b"")),
         ("return-none", lambda m: (160, b"")),
         ("return-str", lambda m: (160, b"")),
         ("return-int", lambda m: (160, b"")),
@@ -114,6 +115,9 @@ def build_site(loop, hlog):
                 return aiocoap.Message(code=aiocoap.numbers.codes.Code((int(c[0]) << 5) | int(c[2:])), payload=b"body")
             if name == "return-without-code":
                 return aiocoap.Message(payload=b"body")
+            if name == "return-unserialisable-message":
+                # a Message all right, but one that cannot be put on the wire (text where bytes belong)
+                return aiocoap.Message(code=aiocoap.CONTENT, payload="text " + secret)
             if name == "return-none":
                 return None
             if name == "return-NoResponse-sentinel":
